@@ -636,6 +636,10 @@ def work(task):
         from mc.checks import c06c
 
         return c06c.work(hists)
+    if what == "adel":
+        from mc.checks import c06d
+
+        return c06d.run_all(Res(), "C06", (kind,))
     res = Res()
     for hist in hists:
         n0 = res.n
@@ -695,7 +699,7 @@ def run(ctx):
     from mc.checks import c06c
 
     st = c06c.tasks(quick)
-    tasks = st + bt + tasks
+    tasks = [("adel", k, 3, []) for k in ("fock_mixed", "fock_pure", "bosonic", "gaussian")] + st + bt + tasks
     ctx.cov["bosonic_cat_postselection_cases"] = sum(len(t[3]) for t in bt)
     ctx.cov["bosonic_sampled_dyne_cases"] = sum(len(t[3]) for t in st)
     for r in ctx.pmap(work, tasks):
@@ -736,6 +740,10 @@ def replay(case):
         from mc.checks import c06c
 
         return c06c.replay(case)
+    if case.get("after_del"):
+        from mc.checks import c06d
+
+        return c06d.replay(case)
     if case.get("collation_wide"):
         check_collation_wide(res)
         return [(s, w) for s, w, c in res.viol if c["modes"] == case["modes"]]
